@@ -22,7 +22,12 @@ Inductive cmd :=
 | CHelp | CStepOver | CStepInto (count : N) | CStepOut | CContinue | CRegisters
 | CPrint (l : loc) | CMove (l : loc) (v : N) | CGoto (m : memloc) | CAssembly (m : memloc)
 | CEval (text : list N) | CEcho (text : list N) | CReset | CQuit | CExit
-| CBreakList | CBreakAdd (m : memloc) | CBreakRemove (m : memloc).
+| CBreakList | CBreakAdd (m : memloc) | CBreakRemove (m : memloc)
+| CBad.     (* a line the command parser rejects: `CommandError` is reported and the next line is read
+               within the same call of Command::read_from (so it is not counted as a command read) *)
+
+(** Calls of Command::read_from a script element accounts for. *)
+Definition cmd_cost (c : cmd) : N := match c with CBad => 0 | _ => 1 end.
 
 (* ------------------------------------------------------------------ *)
 (** * Debugger state *)
@@ -125,6 +130,7 @@ Definition L_DIS_HALT := str "DisallowedInstruction::Halt".
 Definition L_DIS_TRAP := str "DisallowedInstruction::UnknownTrap".
 Definition L_EVAL_ERROR := [1; 69; 118; 97; 108; 69; 114; 114; 111; 114].   (* "\x01EvalError" *)
 Definition L_HELP := str "<help>".
+Definition L_COMMAND_ERROR := str "CommandError".
 
 (** [resolve_location]; errors are reported on the way. *)
 Definition resolve_location (env : dbg_env) (d : dbg) (st : state) (m : memloc) : option N * dbg :=
@@ -296,6 +302,7 @@ Definition run_command (env : dbg_env) (c : cmd) (d0 : dbg) (st : state) : cmd_r
   | CQuit => CmdAction StopDebugger d st
   | CExit => CmdAction ExitProgram d st
   | CHelp => CmdNone (say d L_HELP) st
+  | CBad => CmdNone (say d L_COMMAND_ERROR) st
   | CReset =>
       (* the machine (registers, PC, CC, memory, origin) is restored; the console is not part of it *)
       CmdNone d (set_out (set_inp (d_init d) (s_inp st)) (s_out st))
@@ -418,12 +425,12 @@ Fixpoint wait_loop (env : dbg_env) (script : list cmd) (d : dbg) (st : state) (n
   | [] => NaAction StopDebugger (set_icount d 0) st [] (n + 1)
   | c :: rest =>
       match run_command env c d st with
-      | CmdAction a d1 st1 => NaAction a d1 st1 rest (n + 1)
-      | CmdStop r d1 => NaStop r d1 rest (n + 1)
+      | CmdAction a d1 st1 => NaAction a d1 st1 rest (n + cmd_cost c)
+      | CmdStop r d1 => NaStop r d1 rest (n + cmd_cost c)
       | CmdNone d1 st1 =>
           match dispatch_status d1 st1 with
-          | (Some a, d2) => NaAction a d2 st1 rest (n + 1)
-          | (None, d2) => wait_loop env rest d2 st1 (n + 1)
+          | (Some a, d2) => NaAction a d2 st1 rest (n + cmd_cost c)
+          | (None, d2) => wait_loop env rest d2 st1 (n + cmd_cost c)
           end
       end
   end.
